@@ -180,11 +180,22 @@ def task(t):
     env.scratch_dir()
     names = names_for(n, env.SEED)
     U = Universe(names)
+    oi, hist = sweep.split_oi(oi)
     order = sweep.orders(names)[oi]
-    bdd = S.new_autoref(order)
-    raw = bdd._bdd
-    refs, b = sweep.build_all(bdd, U, hold=False)
-    fn = {f: bdd._add_int(r) for f, r in refs.items()}
+    if hist:
+        # a manager with a history: node numbers are not topological, nodes rewritten in place
+        try:
+            bdd, fn = sweep.make_history(hist, order, U, None, auto=True)
+        except Violation as v:
+            rec('context:' + v.what, v.what, dict(task=t))
+            return rep
+        raw = bdd._bdd
+        refs = {f: h.node for f, h in fn.items()}
+    else:
+        bdd = S.new_autoref(order)
+        raw = bdd._bdd
+        refs, b = sweep.build_all(bdd, U, hold=False)
+        fn = {f: bdd._add_int(r) for f, r in refs.items()}
     fs = sorted(refs)
     mine = sweep.shard(fs, ns)[si]
     fname = 'c18-%d.dot' % os.getpid()
@@ -337,7 +348,12 @@ def plan(tier):
             ts.append(('t', 3, oi, 16 if oi in (0, 3) else 0, 0, 1, None))
         for si in range(16):
             ts.append(('t', 4, 7, 0, si, 16, None))
+        for k, oi in enumerate((1, 2, 5)):
+            ts.append(('t', 3, '%d:%s' % (oi, ('K1', 'K2', 'rev')[k]), 0, 0, 1, None))
     else:
+        for oi in range(6):
+            for hist in ('K1', 'K2', 'rev'):
+                ts.append(('t', 3, '%d:%s' % (oi, hist), 0, 0, 1, None))
         for oi in range(6):
             for si in range(4):
                 ts.append(('t', 3, oi, 1 if oi in (0, 4) else 8, si, 4, None))
